@@ -162,7 +162,11 @@ func (s *Spec) String() string {
 		return "<nil>"
 	}
 	var sb strings.Builder
-	sb.WriteString(s.Base + "Policy()")
+	if s.Base == "Zero" {
+		sb.WriteString("&Policy{}")
+	} else {
+		sb.WriteString(s.Base + "Policy()")
+	}
 	for _, o := range s.Ops {
 		fmt.Fprintf(&sb, "; %s", o.String())
 	}
@@ -345,7 +349,7 @@ func genSpec(t *rapid.T, o *SpecOpts) *Spec {
 	}
 	bases := o.Bases
 	if bases == nil {
-		bases = []string{"New", "New", "New", "UGC"}
+		bases = []string{"New", "New", "New", "New", "New", "New", "UGC", "UGC", "Zero"}
 	}
 	kinds := o.Kinds
 	if kinds == nil {
@@ -381,6 +385,10 @@ func Build(s *Spec, log *Log) *bluemonday.Policy {
 		p = bluemonday.UGCPolicy()
 	case "Strict":
 		p = bluemonday.StrictPolicy()
+	case "Zero":
+		// a Policy literal that never went through NewPolicy: the code documents that it is
+		// initialised on demand (without the default bare-element and skip-content tables)
+		p = &bluemonday.Policy{}
 	default:
 		p = bluemonday.NewPolicy()
 	}
@@ -739,6 +747,9 @@ func BuildModel(s *Spec) *Model {
 		m.ugc()
 	case "Strict":
 		m.strict = true
+	case "Zero":
+		m.bare = map[string]bool{}
+		m.skip = map[string]bool{}
 	}
 	for _, o := range s.Ops {
 		m.apply(o)
